@@ -740,3 +740,217 @@ pub fn mutate_bytes(g: &mut Gen, raw: &mut Vec<u8>) -> &'static str {
         }
     }
 }
+
+// ---- structured SBOR mutation ---------------------------------------------------------------
+
+/// An array (or map) found in a manifest-SBOR payload: where its LEB128 element count sits and
+/// the byte span of every element.
+#[derive(Clone, Debug)]
+pub struct ArraySite {
+    /// element value kind (0x23 for map entries)
+    pub element_kind: u8,
+    pub len_pos: usize,
+    pub len_size: usize,
+    pub elems: Vec<(usize, usize)>,
+}
+
+fn read_leb(raw: &[u8], pos: usize) -> Option<(usize, usize)> {
+    let mut v = 0usize;
+    let mut shift = 0;
+    let mut i = pos;
+    loop {
+        let b = *raw.get(i)?;
+        v |= ((b & 0x7f) as usize) << shift;
+        i += 1;
+        if b & 0x80 == 0 {
+            return Some((v, i - pos));
+        }
+        shift += 7;
+        if shift > 28 {
+            return None;
+        }
+    }
+}
+
+fn write_leb(mut v: usize) -> Vec<u8> {
+    let mut out = Vec::new();
+    loop {
+        let b = (v & 0x7f) as u8;
+        v >>= 7;
+        if v == 0 {
+            out.push(b);
+            return out;
+        }
+        out.push(b | 0x80);
+    }
+}
+
+/// Walks the body of a value of `kind` starting at `pos`; returns the end offset.
+fn walk_body(raw: &[u8], pos: usize, kind: u8, depth: usize, out: &mut Vec<ArraySite>) -> Option<usize> {
+    if depth > 40 {
+        return None;
+    }
+    let fixed = |n: usize| if pos + n <= raw.len() { Some(pos + n) } else { None };
+    match kind {
+        0x01 | 0x02 | 0x07 => fixed(1),
+        0x03 | 0x08 => fixed(2),
+        0x04 | 0x09 => fixed(4),
+        0x05 | 0x0a => fixed(8),
+        0x06 | 0x0b => fixed(16),
+        0x0c => {
+            let (n, s) = read_leb(raw, pos)?;
+            if pos + s + n <= raw.len() {
+                Some(pos + s + n)
+            } else {
+                None
+            }
+        }
+        0x20 => {
+            let ek = *raw.get(pos)?;
+            let (n, s) = read_leb(raw, pos + 1)?;
+            let mut p = pos + 1 + s;
+            if n > raw.len() {
+                return None;
+            }
+            let mut elems = Vec::with_capacity(n.min(64));
+            for _ in 0..n {
+                let e = walk_body(raw, p, ek, depth + 1, out)?;
+                elems.push((p, e));
+                p = e;
+            }
+            out.push(ArraySite { element_kind: ek, len_pos: pos + 1, len_size: s, elems });
+            Some(p)
+        }
+        0x21 => {
+            let (n, s) = read_leb(raw, pos)?;
+            let mut p = pos + s;
+            if n > raw.len() {
+                return None;
+            }
+            for _ in 0..n {
+                let k = *raw.get(p)?;
+                p = walk_body(raw, p + 1, k, depth + 1, out)?;
+            }
+            Some(p)
+        }
+        0x22 => {
+            let (n, s) = read_leb(raw, pos + 1)?;
+            let mut p = pos + 1 + s;
+            if n > raw.len() {
+                return None;
+            }
+            for _ in 0..n {
+                let k = *raw.get(p)?;
+                p = walk_body(raw, p + 1, k, depth + 1, out)?;
+            }
+            Some(p)
+        }
+        0x23 => {
+            let kk = *raw.get(pos)?;
+            let vk = *raw.get(pos + 1)?;
+            let (n, s) = read_leb(raw, pos + 2)?;
+            let mut p = pos + 2 + s;
+            if n > raw.len() {
+                return None;
+            }
+            let mut elems = Vec::with_capacity(n.min(64));
+            for _ in 0..n {
+                let start = p;
+                p = walk_body(raw, p, kk, depth + 1, out)?;
+                p = walk_body(raw, p, vk, depth + 1, out)?;
+                elems.push((start, p));
+            }
+            out.push(ArraySite { element_kind: 0x23, len_pos: pos + 2, len_size: s, elems });
+            Some(p)
+        }
+        0x80 => match *raw.get(pos)? {
+            0 => fixed(31),
+            1 => fixed(5),
+            _ => None,
+        },
+        0x81 | 0x82 | 0x88 => fixed(4),
+        0x83 => fixed(1),
+        0x84 => fixed(32),
+        0x85 => fixed(24),
+        0x86 => fixed(32),
+        0x87 => match *raw.get(pos)? {
+            0 | 2 => {
+                let (n, s) = read_leb(raw, pos + 1)?;
+                if pos + 1 + s + n <= raw.len() {
+                    Some(pos + 1 + s + n)
+                } else {
+                    None
+                }
+            }
+            1 => fixed(9),
+            3 => fixed(33),
+            _ => None,
+        },
+        _ => None,
+    }
+}
+
+/// Every array / map of a manifest-SBOR payload (None if the payload does not parse with this
+/// from-the-format walker).
+pub fn find_arrays(raw: &[u8]) -> Option<Vec<ArraySite>> {
+    if raw.len() < 2 || raw[0] != 0x4d {
+        return None;
+    }
+    let mut out = Vec::new();
+    let end = walk_body(raw, 2, raw[1], 0, &mut out)?;
+    if end != raw.len() {
+        return None;
+    }
+    Some(out)
+}
+
+/// Duplicates / removes / swaps elements of one SBOR array of the payload, keeping the element
+/// count consistent, so that the result is still well-formed SBOR. Returns the class, or None if
+/// no suitable array exists.
+pub fn mutate_sbor_array(g: &mut Gen, raw: &mut Vec<u8>) -> Option<&'static str> {
+    let sites = find_arrays(raw)?;
+    // arrays of structured elements (hashes, subintents, signatures, blobs, instructions, ...) are
+    // preferred over plain byte arrays
+    let structured: Vec<&ArraySite> = sites.iter().filter(|s| s.element_kind != 0x07 && !s.elems.is_empty()).collect();
+    let bytes: Vec<&ArraySite> = sites.iter().filter(|s| s.element_kind == 0x07 && !s.elems.is_empty()).collect();
+    let site: &ArraySite = if !structured.is_empty() && (bytes.is_empty() || !g.chance(1, 6)) {
+        structured[g.index(structured.len())]
+    } else if !bytes.is_empty() {
+        bytes[g.index(bytes.len())]
+    } else {
+        return None;
+    };
+    let n = site.elems.len();
+    let new_len = |k: usize| write_leb(k);
+    match g.weighted(&[5, 2, 2]) {
+        0 => {
+            // duplicate element i, inserting the copy at position j
+            let i = g.index(n);
+            let j = if g.bool() { i + 1 } else { g.index(n + 1) };
+            let copy = raw[site.elems[i].0..site.elems[i].1].to_vec();
+            let at = if j == n { site.elems[n - 1].1 } else { site.elems[j].0 };
+            raw.splice(at..at, copy);
+            raw.splice(site.len_pos..site.len_pos + site.len_size, new_len(n + 1));
+            Some("array element duplicated")
+        }
+        1 => {
+            let i = g.index(n);
+            raw.drain(site.elems[i].0..site.elems[i].1);
+            raw.splice(site.len_pos..site.len_pos + site.len_size, new_len(n - 1));
+            Some("array element removed")
+        }
+        _ => {
+            if n < 2 {
+                return None;
+            }
+            let i = g.index(n - 1);
+            let j = i + 1 + g.index(n - 1 - i);
+            let a = raw[site.elems[i].0..site.elems[i].1].to_vec();
+            let b = raw[site.elems[j].0..site.elems[j].1].to_vec();
+            // replace the later one first so that offsets of the earlier one stay valid
+            raw.splice(site.elems[j].0..site.elems[j].1, a);
+            raw.splice(site.elems[i].0..site.elems[i].1, b);
+            Some("array elements swapped")
+        }
+    }
+}
